@@ -1658,3 +1658,256 @@ Example ex_nothing_missing :
   /\ render PProbe 10 (ex_prog1 ++ ex_prog2) [(n_a, VInt 3); (n_m, VList [VInt 1; VNil])]
      = Ok ([49]%N ++ [51]%N ++ t_T ++ [51]%N).
 Proof. vm_compute. split; reflexivity. Qed.
+
+(** * Deleting (or changing) data the program never mentions is invisible *)
+
+Definition sim (L : list str) (c1 c2 : ctx) : Prop :=
+  scopes c1 = scopes c2 /\ locals c1 = locals c2 /\
+  forall r, In r L -> assoc r (globals c1) = assoc r (globals c2).
+Definition simP (L : list str) (a b : ctx * str) : Prop := sim L (fst a) (fst b) /\ snd a = snd b.
+
+Definition rel_res {A B} (R : A -> B -> Prop) (r1 : res A) (r2 : res B) : Prop :=
+  match r1, r2 with
+  | Ok a, Ok b => R a b
+  | LErr c p, LErr c' p' => c = c' /\ p = p'
+  | PyExc k, PyExc k' => k = k'
+  | OutOfFuel, OutOfFuel => True
+  | _, _ => False
+  end.
+
+Lemma rel_res_bind {A B A' B'} (R : A -> B -> Prop) (S : A' -> B' -> Prop) r1 r2 k1 k2 :
+  rel_res R r1 r2 -> (forall a b, R a b -> rel_res S (k1 a) (k2 b)) ->
+  rel_res S (bind r1 k1) (bind r2 k2).
+Proof.
+  intros H1 H2. destruct r1, r2; simpl in *; try contradiction; auto.
+Qed.
+Lemma rel_res_eq {A B} (S : A -> B -> Prop) (r : res A) (k1 : A -> res B) : True -> True.
+Proof. auto. Qed.
+Lemma rel_res_same {A B C} (S : B -> C -> Prop) (r : res A) (k1 : A -> res B) (k2 : A -> res C) :
+  (forall a, rel_res S (k1 a) (k2 a)) -> rel_res S (bind r k1) (bind r k2).
+Proof. intro H. destruct r; simpl; auto. Qed.
+
+Lemma mapM_ext_in {A B} (f g : A -> res B) l : (forall x, In x l -> f x = g x) -> mapM f l = mapM g l.
+Proof.
+  induction l as [|x l IH]; simpl; intro H; [reflexivity|].
+  rewrite (H x) by (left; reflexivity). rewrite IH by (intros y Hy; apply H; right; exact Hy). reflexivity.
+Qed.
+Lemma incl_flat_map_in {A} (f : A -> list str) l x L : incl (flat_map f l) L -> In x l -> incl (f x) L.
+Proof.
+  intros H Hx r Hr. apply H. apply in_flat_map. exists x. split; assumption.
+Qed.
+Lemma incl_app_l {A} (a b L : list A) : incl (a ++ b) L -> incl a L.
+Proof. intros H x Hx. apply H, in_or_app; left; exact Hx. Qed.
+Lemma incl_app_r {A} (a b L : list A) : incl (a ++ b) L -> incl b L.
+Proof. intros H x Hx. apply H, in_or_app; right; exact Hx. Qed.
+
+Lemma ctx_get_sim pol L c1 c2 root keys : sim L c1 c2 -> In root L ->
+  ctx_get pol c1 root keys = ctx_get pol c2 root keys.
+Proof.
+  intros [Hs [Hl Hg]] Hr. unfold ctx_get. rewrite Hs, Hl, (Hg root Hr). reflexivity.
+Qed.
+
+Lemma eval_step_sim pol ev L c1 c2 e :
+  (forall e', incl (roots_e e') L -> ev c1 e' = ev c2 e') ->
+  incl (roots_e e) L -> sim L c1 c2 ->
+  eval_step pol ev c1 e = eval_step pol ev c2 e.
+Proof.
+  intros H Hi Hc. unfold eval_step. destruct e; simpl in Hi.
+  - reflexivity.
+  - assert (In root L) by (apply Hi; left; reflexivity).
+    assert (Hs : incl (flat_map roots_s segs) L) by (intros x Hx; apply Hi; right; exact Hx).
+    rewrite (mapM_ext_in _ (fun s => match s with SName n => Ok (VStr n) | SIdx z => Ok (VInt z) | SExpr e' => ev c2 e' end)).
+    + destruct (mapM _ segs); try reflexivity. apply (ctx_get_sim pol L); assumption.
+    + intros s Hsin. destruct s; try reflexivity. apply H. exact (incl_flat_map_in roots_s segs (SExpr e) L Hs Hsin).
+  - rewrite (mapM_ext_in (ev c1) (ev c2)); [reflexivity|]. intros x Hx. apply H. eapply incl_flat_map_in; eassumption.
+  - rewrite (H e) by (eapply incl_app_l; exact Hi).
+    apply incl_app_r in Hi.
+    rewrite (mapM_ext_in (ev c1) (ev c2)) by (intros x Hx; apply H; eapply incl_flat_map_in; [eapply incl_app_l; exact Hi|exact Hx]).
+    rewrite (mapM_ext_in (fun p => do v <- ev c1 (snd p);; Ok (fst p, v)) (fun p => do v <- ev c2 (snd p);; Ok (fst p, v))).
+    + reflexivity.
+    + intros x Hx. rewrite (H (snd x)); [reflexivity|].
+      apply incl_app_r in Hi. exact (incl_flat_map_in (fun p => roots_e (snd p)) kw x L Hi Hx).
+  - rewrite (H e2) by (eapply incl_app_l; eapply incl_app_r; exact Hi).
+    rewrite (H e1) by (eapply incl_app_l; exact Hi).
+    destruct alt; [|reflexivity]. rewrite (H e) by (eapply incl_app_r; eapply incl_app_r; exact Hi). reflexivity.
+  - rewrite (H e) by exact Hi. reflexivity.
+  - rewrite (H e1) by (eapply incl_app_l; exact Hi). rewrite (H e2) by (eapply incl_app_r; exact Hi). reflexivity.
+  - rewrite (H e1) by (eapply incl_app_l; exact Hi). rewrite (H e2) by (eapply incl_app_r; exact Hi). reflexivity.
+  - rewrite (H e1) by (eapply incl_app_l; exact Hi). rewrite (H e2) by (eapply incl_app_r; exact Hi). reflexivity.
+Qed.
+
+Lemma eval_sim pol L f : forall c1 c2 e, sim L c1 c2 -> incl (roots_e e) L ->
+  eval pol f c1 e = eval pol f c2 e.
+Proof.
+  induction f as [|f IH]; intros c1 c2 e Hc Hi; simpl; [reflexivity|].
+  apply (eval_step_sim pol _ L); try assumption. intros e' He'. apply IH; assumption.
+Qed.
+
+Lemma rb_eq b :
+  (fix rb (b : list stmt) : list str := match b with [] => [] | x :: t => roots_st x ++ rb t end) b = roots_b b.
+Proof. induction b as [|x b IH]; simpl; [reflexivity|]. rewrite IH. reflexivity. Qed.
+
+Lemma sim_set_local L c1 c2 x v : sim L c1 c2 -> sim L (set_local c1 x v) (set_local c2 x v).
+Proof. intros [a [b c]]. unfold sim, set_local; simpl. rewrite b. auto. Qed.
+Lemma sim_push L c1 c2 ns : sim L c1 c2 -> sim L (push_scope c1 ns) (push_scope c2 ns).
+Proof. intros [a [b c]]. unfold sim, push_scope; simpl. rewrite a. auto. Qed.
+Lemma sim_pop L c1 c2 : sim L c1 c2 -> sim L (pop_scope c1) (pop_scope c2).
+Proof. intros [a [b c]]. unfold sim, pop_scope; simpl. rewrite a. auto. Qed.
+
+Section SimBlocks.
+  Variable pol : upolicy.
+  Variable L : list str.
+  Variable ev : evalT.
+  Variable blk : blockT.
+  Hypothesis Hev : forall c1 c2 e, sim L c1 c2 -> incl (roots_e e) L -> ev c1 e = ev c2 e.
+  Hypothesis Hblk : forall c1 c2 b, sim L c1 c2 -> incl (roots_b b) L ->
+    rel_res (simP L) (blk c1 b) (blk c2 b).
+
+  Lemma rel_ok c1 c2 o : sim L c1 c2 -> rel_res (simP L) (Ok (c1, o)) (Ok (c2, o)).
+  Proof. intro H. simpl. split; [exact H|reflexivity]. Qed.
+
+  Lemma opt_run_sim c1 c2 o : sim L c1 c2 ->
+    incl (match o with Some b => roots_b b | None => [] end) L ->
+    rel_res (simP L) (opt_run blk c1 o) (opt_run blk c2 o).
+  Proof. intros Hc Hi. unfold opt_run. destruct o; [apply Hblk; assumption|apply rel_ok, Hc]. Qed.
+
+  Lemma case_any_sim c1 c2 lv es : sim L c1 c2 -> incl (flat_map roots_e es) L ->
+    case_any pol (ev c1) lv es = case_any pol (ev c2) lv es.
+  Proof.
+    intros Hc. induction es as [|e es IH]; simpl; intro Hi; [reflexivity|].
+    rewrite (Hev c1 c2 e Hc) by (eapply incl_app_l; exact Hi).
+    rewrite IH by (eapply incl_app_r; exact Hi). reflexivity.
+  Qed.
+
+  Definition simP3 (a b : ctx * str * bool) : Prop :=
+    sim L (fst (fst a)) (fst (fst b)) /\ snd (fst a) = snd (fst b) /\ snd a = snd b.
+
+  Lemma case_go_sim e ws : incl (roots_e e) L ->
+    incl ((fix rw (w : list (list expr * list stmt)) : list str :=
+             match w with [] => [] | (es, b) :: t => flat_map roots_e es ++ roots_b b ++ rw t end) ws) L ->
+    forall c1 c2 out m, sim L c1 c2 ->
+    rel_res simP3 (case_go pol ev blk e ws c1 out m) (case_go pol ev blk e ws c2 out m).
+  Proof.
+    intros He. induction ws as [|[es b] ws IH]; intros Hi c1 c2 out m Hc; simpl.
+    - repeat split; try reflexivity; exact Hc.
+    - rewrite (Hev c1 c2 e Hc He). apply rel_res_same. intro lv.
+      rewrite (case_any_sim c1 c2 lv es Hc) by (eapply incl_app_l; exact Hi).
+      apply rel_res_same. intros [].
+      + eapply rel_res_bind; [apply Hblk; [exact Hc|eapply incl_app_l; eapply incl_app_r; exact Hi]|].
+        intros a b0 [Ha Hb]. rewrite Hb. apply IH; [eapply incl_app_r; eapply incl_app_r; exact Hi|exact Ha].
+      + apply IH; [eapply incl_app_r; eapply incl_app_r; exact Hi|exact Hc].
+  Qed.
+
+  Lemma for_loop_sim x body its : incl (roots_b body) L -> forall c1 c2 out, sim L c1 c2 ->
+    rel_res (simP L) (for_loop blk x body its c1 out) (for_loop blk x body its c2 out).
+  Proof.
+    intro Hi. induction its as [|i its IH]; intros c1 c2 out Hc; simpl; [apply rel_ok, Hc|].
+    eapply rel_res_bind; [apply Hblk; [apply sim_push, Hc|exact Hi]|].
+    intros a b [Ha Hb]. rewrite Hb. apply IH, sim_pop, Ha.
+  Qed.
+
+  Lemma exec_stmt_sim c1 c2 s : sim L c1 c2 -> incl (roots_st s) L ->
+    rel_res (simP L) (exec_stmt pol ev blk c1 s) (exec_stmt pol ev blk c2 s).
+  Proof.
+    intros Hc Hi. unfold exec_stmt. destruct s; simpl in Hi; rewrite ?rb_eq in Hi.
+    - apply rel_ok, Hc.
+    - rewrite (Hev c1 c2 e Hc Hi). apply rel_res_same. intro v. apply rel_res_same. intro o. apply rel_ok, Hc.
+    - rewrite (Hev c1 c2 e Hc Hi). apply rel_res_same. intro v. apply rel_res_same. intro o. apply rel_ok, Hc.
+    - rewrite (Hev c1 c2 e Hc Hi). apply rel_res_same. intro v. apply rel_ok, sim_set_local, Hc.
+    - eapply rel_res_bind; [apply Hblk; assumption|]. intros a b [Ha Hb]. rewrite Hb. apply rel_ok, sim_set_local, Ha.
+    - rewrite (Hev c1 c2 c Hc) by (eapply incl_app_l; exact Hi). apply incl_app_r in Hi.
+      apply rel_res_same. intro v. apply rel_res_same. intros [].
+      + apply Hblk; [exact Hc|eapply incl_app_l; exact Hi].
+      + apply opt_run_sim; [exact Hc|]. apply incl_app_r in Hi. destruct f; simpl; rewrite ?rb_eq in Hi; exact Hi.
+    - rewrite (Hev c1 c2 c Hc) by (eapply incl_app_l; exact Hi). apply incl_app_r in Hi.
+      apply rel_res_same. intro v. apply rel_res_same. intros []; simpl.
+      + apply opt_run_sim; [exact Hc|]. apply incl_app_r in Hi. destruct f; simpl; rewrite ?rb_eq in Hi; exact Hi.
+      + apply Hblk; [exact Hc|eapply incl_app_l; exact Hi].
+    - eapply rel_res_bind.
+      + apply case_go_sim; [eapply incl_app_l; exact Hi| |exact Hc].
+        apply incl_app_r, incl_app_l in Hi.
+        clear - Hi. induction whens as [|[es b] ws IH]; simpl in *; [exact Hi|].
+        rewrite rb_eq in Hi. intros x Hx. apply in_app_or in Hx as [Hx|Hx]; [apply Hi, in_or_app; left; exact Hx|].
+        apply in_app_or in Hx as [Hx|Hx]; [apply Hi, in_or_app; right; apply in_or_app; left; exact Hx|].
+        apply IH; [|exact Hx]. intros y Hy. apply Hi, in_or_app; right. apply in_or_app; right; exact Hy.
+      + intros [[ca oa] ma] [[cb ob] mb] [Ha [Hb Hm]]; simpl in *. subst.
+        destruct mb; [apply rel_ok, Ha|].
+        eapply rel_res_bind; [apply opt_run_sim; [exact Ha|]|].
+        * apply incl_app_r, incl_app_r in Hi. destruct dflt; simpl; rewrite ?rb_eq in Hi; exact Hi.
+        * intros a b [Ha' Hb']. rewrite Hb'. apply rel_ok, Ha'.
+    - rewrite (Hev c1 c2 it Hc) by (eapply incl_app_l; exact Hi). apply incl_app_r in Hi.
+      apply rel_res_same. intro itv. apply rel_res_same. intro items.
+      assert (Hlim : match limit with
+                     | Some le => do lv <- ev c1 le;; do n <- to_int_arg pol lv;;
+                                  if n <? 0 then PyExc ValueError else Ok (firstn (Z.to_nat n) items)
+                     | None => Ok items end
+                   = match limit with
+                     | Some le => do lv <- ev c2 le;; do n <- to_int_arg pol lv;;
+                                  if n <? 0 then PyExc ValueError else Ok (firstn (Z.to_nat n) items)
+                     | None => Ok items end).
+      { destruct limit as [le|]; [|reflexivity]. rewrite (Hev c1 c2 le Hc); [reflexivity|]. eapply incl_app_l; exact Hi. }
+      rewrite Hlim. apply incl_app_r in Hi. apply rel_res_same. intros [|i0 items'].
+      + apply opt_run_sim; [exact Hc|]. apply incl_app_r in Hi. destruct dflt; simpl; rewrite ?rb_eq in Hi; exact Hi.
+      + destruct Hc as [Hs Hrest]. rewrite <- Hs. destruct (Nat.ltb _ _); [simpl; auto|].
+        apply for_loop_sim; [eapply incl_app_l; exact Hi|split; assumption].
+  Qed.
+End SimBlocks.
+
+Lemma run_block_sim L ex :
+  (forall c1 c2 b, sim L c1 c2 -> incl (roots_b b) L -> rel_res (simP L) (ex c1 b) (ex c2 b)) ->
+  forall c1 c2 b, sim L c1 c2 -> incl (roots_b b) L ->
+  rel_res (simP L) (run_block ex c1 b) (run_block ex c2 b).
+Proof.
+  intros H c1 c2 b Hc Hi. unfold run_block. eapply rel_res_bind; [apply H; assumption|].
+  intros a b0 [Ha Hb]. simpl. rewrite Hb. split; [exact Ha|reflexivity].
+Qed.
+
+Lemma exec_sim pol L f : forall c1 c2 p, sim L c1 c2 -> incl (roots_b p) L ->
+  rel_res (simP L) (exec pol f c1 p) (exec pol f c2 p).
+Proof.
+  induction f as [|f IH]; intros c1 c2 p Hc Hi; simpl; [exact I|].
+  destruct p as [|s rest]; [split; [exact Hc|reflexivity]|].
+  unfold roots_b in Hi; simpl in Hi.
+  eapply rel_res_bind.
+  - apply exec_stmt_sim; [intros; apply (eval_sim pol L); assumption|apply run_block_sim, IH|exact Hc|eapply incl_app_l; exact Hi].
+  - intros a b [Ha Hb]. eapply rel_res_bind; [apply IH; [exact Ha|eapply incl_app_r; exact Hi]|].
+    intros a' b' [Ha' Hb']. simpl. rewrite Hb, Hb'. split; [exact Ha'|reflexivity].
+Qed.
+
+(** The render depends on the caller's data only through the root names the
+    program mentions: two data sets that agree on them give the same outcome
+    under every policy. *)
+Theorem render_depends_only_on_mentioned_roots : forall pol fuel p d1 d2,
+  (forall r, In r (roots_b p) -> assoc r d1 = assoc r d2) ->
+  render pol fuel p d1 = render pol fuel p d2.
+Proof.
+  intros pol f p d1 d2 H. unfold render.
+  pose proof (exec_sim pol (roots_b p) f {| scopes := []; locals := []; globals := d1 |}
+                {| scopes := []; locals := []; globals := d2 |} p) as E.
+  assert (Hs : sim (roots_b p) {| scopes := []; locals := []; globals := d1 |}
+                 {| scopes := []; locals := []; globals := d2 |}) by (repeat split; exact H).
+  specialize (E Hs (incl_refl _)).
+  destruct (exec pol f _ p) as [a|c q|k|], (exec pol f _ p) as [b|c' q'|k'|]; simpl in *; try contradiction.
+  - destruct E as [_ E]. rewrite E. reflexivity.
+  - destruct E; subst; reflexivity.
+  - subst; reflexivity.
+  - reflexivity.
+Qed.
+
+Lemma assoc_remove_key_neq {V} k x (l : list (str * V)) : k <> x -> assoc k (remove_key x l) = assoc k l.
+Proof.
+  intro Hn. induction l as [|[k' v] l IH]; simpl; [reflexivity|].
+  destruct (str_eqb x k') eqn:E1.
+  - apply str_eqb_eq in E1. subst k'. rewrite IH.
+    destruct (str_eqb k x) eqn:E2; [apply str_eqb_eq in E2; contradiction|reflexivity].
+  - simpl. rewrite IH. reflexivity.
+Qed.
+
+(** Deleting a variable the program never mentions changes nothing. *)
+Theorem deleting_unused_data_is_invisible : forall pol fuel p d x,
+  ~ In x (roots_b p) ->
+  render pol fuel p (remove_key x d) = render pol fuel p d.
+Proof.
+  intros pol f p d x Hx. apply render_depends_only_on_mentioned_roots.
+  intros r Hr. apply assoc_remove_key_neq. intro E; subst. exact (Hx Hr).
+Qed.
